@@ -127,6 +127,14 @@ def run_impl(abi, case):
         regs = abi._allocate_patch_registers(c)
     except Exception as e:  # noqa: BLE001
         out["alloc_err"] = _exc(e)
+        # is the refusal justified?  Every name is a register and the pool - the ABI's scratch registers that the
+        # patch neither clobbers nor reads - holds as many registers as the patch asks for: nothing to refuse
+        try:
+            named = {abi.get_register(r).name for r in list(case["clobbers"]) + list(case["reads"])}
+            pool = [r.name for r in abi._scratch_registers() if r.name not in named]
+            out["refusal_unjustified"] = case["scratch"] <= len(pool)
+        except KeyError:
+            out["refusal_unjustified"] = False
         return out
     out["alloc"] = {
         "clobbered": [r.name for r in regs.clobbered_registers],
@@ -397,7 +405,10 @@ def flush(ctx, pending):
             continue
         # correspondence with the Lean generator
         if "alloc_err" in impl or "alloc_err" in a:
-            if impl.get("alloc_err") != a.get("alloc_err"):
+            if impl.get("refusal_unjustified"):
+                ctx.violation("C16:valid-constraints-refused", "%s refuses %s with %s although every name is a register and the pool holds enough scratch registers"
+                              % (case["abi"], {k: case[k] for k in ("clobbers", "scratch", "reads")}, impl["alloc_err"]), case)
+            elif impl.get("alloc_err") != a.get("alloc_err"):
                 ctx.mismatch("allocation: impl %s, model %s" % (impl.get("alloc_err") or impl.get("alloc"), a.get("alloc_err") or a.get("alloc")), case)
             elif impl.get("alloc_err") not in ("KeyError", "ValueError"):
                 ctx.violation("C16:alloc-error:" + str(impl.get("alloc_err")), "register allocation raised %s" % impl.get("alloc_err"), case)
